@@ -813,16 +813,37 @@ class QueryObjectDescriptor(SymbolicExpression[T], ABC):
         :param sources: The current bindings.
         :return: An Iterable of OperationResults for each combination of values.
         """
-        var_val_gen = {
-            var: var._evaluate__(copy(sources), parent=self)
-            for var in self.selected_variables
-        }
-        for sol in generate_combinations(var_val_gen):
+        for sol in self._generate_consistent_selected_values_(
+            self.selected_variables, copy(sources)
+        ):
             var_val = {var._id_: sol[var][var._id_] for var in self.selected_variables}
             self._is_false_ = self._is_false_ or any(
                 sol[var].is_false for var in self.selected_variables
             )
             yield OperationResult({**sources, **var_val}, self._is_false_, self)
+
+    def _generate_consistent_selected_values_(
+        self,
+        variables: List[CanBehaveLikeAVariable[T]],
+        sources: Dict[int, HashedValue],
+    ) -> Iterable[Dict[CanBehaveLikeAVariable[T], OperationResult]]:
+        """
+        Evaluate the selected variables one after the other, each with the bindings produced by the previous ones, such
+        that selected expressions which share a variable are evaluated on the same value of that variable.
+
+        :param variables: The selected variables that are still to be evaluated.
+        :param sources: The current bindings.
+        :return: An Iterable of dictionaries mapping each selected variable to its result.
+        """
+        if not variables:
+            yield {}
+            return
+        var, remaining = variables[0], variables[1:]
+        for result in var._evaluate__(copy(sources), parent=self):
+            for rest in self._generate_consistent_selected_values_(
+                remaining, {**result.bindings, **sources}
+            ):
+                yield {var: result, **rest}
 
     @cached_property
     def _all_variable_instances_(self) -> List[Variable]:
